@@ -86,6 +86,9 @@ func checkC03(c *Check) {
 					skip = callee
 					return avTag("skip-result")
 				}
+				if isErrorType(x.Type()) {
+					return &absVal{k: avNil} // every other primitive succeeds
+				}
 			case *ssa.Extract:
 				if isErrorType(x.Type()) {
 					return &absVal{k: avNil}
@@ -452,8 +455,11 @@ func checkPtraceOptions(c *Check, handle *ssa.Function) {
 		"ptrace options lack "+strings.Join(missing, ", ")+": children created that way are not traced from their first instruction / the tracee survives its tracer")
 	// in handle: every PtraceCont in the stopped arm is preceded by the traced-check region
 	for _, ci := range callInstrs(handle) {
-		if _, callee := calleeOf(ci); callee == optFn {
+		_, callee := calleeOf(ci)
+		if callee == optFn {
 			setOpt = ci
+		} else if callee != nil && inModule(callee) && callee.Pkg == handle.Pkg && reachesCall(callee, 2, func(c2 ssa.CallInstruction) bool { _, c3 := calleeOf(c2); return c3 == optFn }) {
+			setOpt = ci // the options are set in a helper called here
 		}
 	}
 	if setOpt == nil {
